@@ -93,6 +93,7 @@ static void op_ci_dec(FILE *out, const char *id, char **a, int n) { ci_dec_commo
 static void op_ci_decint(FILE *out, const char *id, char **a, int n) { ci_dec_common(out, id, a, n, 1); }
 
 #include "ops_range.h"
+#include "ops_hash.h"
 
 /* ------------------------------------------------------------------ dispatch */
 
@@ -103,6 +104,9 @@ static struct { const char *name; opfn fn; int forked; } OPS[] = {
     {"CI_DEC", op_ci_dec, 0},
     {"CI_DECINT", op_ci_decint, 0},
     {"RANGE", op_range, 0},
+    {"HASH", op_hash, 0},
+    {"HASHO", op_hash, 0},
+    {"HASHBIG", op_hashbig, 0},
     {NULL, NULL, 0}
 };
 
